@@ -30,6 +30,9 @@ CheckCase ==
                                IF "singles" \in DOMAIN Ev
                                THEN (\A i \in 1..Len(Ev.singles) : Ev.singles[i] = "ok") => M(Modes[k]).write = "ok"
                                ELSE M(Modes[k]).write = "ok")
+    \* C08: success does not depend on the order of siblings (nor on the process): the harness driver tells
+    \* every population the outcome of the first one logged with the same multiset of instances
+    /\ "peer_write" \in DOMAIN Ev => Clause("orderfree", \A k \in ModeSet : M(Modes[k]).write = Ev.peer_write)
     /\ \A k \in ModeSet : M(Modes[k]).write = "ok" =>
           /\ Clause("read-" \o Modes[k], M(Modes[k]).read = "ok")
           /\ M(Modes[k]).read = "ok" =>
